@@ -125,8 +125,9 @@ def r18_1(F, R):
 
 def r18_2(F, R, tier):
     from ..pps_run import run_pps
-    R.rule("R18.2", "explicit panics and unwrap-family sites reachable from lang::{parse_horizontal_list, parse_hbox, format} and the Display impls of the "
-                    "ds types are discharged or findings (thorough: + assert terminators / curated std calls, reported as undecided where not triaged)")
+    R.rule("R18.2", "every potential-panic site (explicit panics, unwrap family, assert terminators, curated panicking std calls) reachable from "
+                    "lang::{parse_horizontal_list, parse_hbox, format} and the Display impls of the ds types — in boxworks::lang, boxworks::ds and the "
+                    "common crate — is discharged, audited with a per-site invariant, or a reproduced finding")
     entries = ["boxworks::lang::parse_horizontal_list", "boxworks::lang::parse_vertical_list", "boxworks::lang::parse_hbox", "boxworks::lang::format",
                "<boxworks::ds::Horizontal as core::fmt::Display>::fmt", "<boxworks::ds::VBox as core::fmt::Display>::fmt"]
     have = []
@@ -318,5 +319,7 @@ def run(F, R, tier):
     r18_4(F, R)
     r18_2(F, R, tier)
     return ("Static analysis (partial claim). Decided: the ds<->AST converters cover every field and every variant in both directions (audited drops only, "
-            "each tied to the property's stated exclusions), and explicit panic / unwrap sites reachable from the parser, formatter and printers are "
-            "discharged or findings. NOT decided: that print and parse are inverse on values (dimension printing is C06's numeric core), formatter idempotence.")
+            "each tied to the property's stated exclusions); every potential-panic site reachable from the parser, formatter and printers is discharged, "
+            "audited or a reproduced finding (R18.2); the lexer's cursor discipline (R18.5), the agreement of its two scanners on string boundaries "
+            "(R18.6), the escape range shared with the printer (R18.3) and the formatter's mode switch (R18.4). NOT decided: that print and parse are "
+            "inverse on values (dimension printing is C06's numeric core), formatter idempotence as a whole.")
